@@ -1,4 +1,5 @@
 import SdbModel.Model.WatchSet
+import SdbModel.Generated.WSParams
 
 /-!
 # C20 — WatchSet.Wait returns exactly the closed members and keeps the rest
@@ -392,5 +393,11 @@ example :
     wait e firstOracle [1, 2, 3] 50 0 = some { returned := [1, 2], err := false, time := 55, set := [3] } := by decide
 
 example : OracleValid firstOracle → True := fun _ => trivial
+
+/-- the structural facts about watchset.go that `Model.WatchSet` builds in — the context is select case
+    0, the settle deadline, the loop and return conditions of `Wait`, the removal of exactly the returned
+    channels, and that every method releases the set's mutex on every path — hold of the source as it
+    is today (regenerated by `tools/extract` on every run) -/
+theorem C20_source_facts : Gen.wsFacts = WS.expectedFacts := by decide
 
 end Sdb
